@@ -62,7 +62,9 @@ func (r *LightRenderer) stderrInternal(str string, allowNLCR bool, resetCode str
 				} else {
 					runes = append(runes, []rune(LF+resetCode)...)
 				}
-			} else if r != utf8.RuneError {
+			} else if r != utf8.RuneError || sz > 1 {
+				// U+FFFD itself is a character (counted as one column); only
+				// the result of a failed decoding is dropped
 				runes = append(runes, r)
 			}
 		}
